@@ -1192,7 +1192,7 @@ impl Sim for SrvSim {
     }
     fn meta(_p: &str) -> SimMeta {
         SimMeta {
-            rule: "Each run draws workers 1-4, listeners 1-2, 0-12 connections (full request at connect time, delayed request, half-sent headers, silent, keep-alive with a second request; handler durations 0, << timeout, ~timeout±3ms, >> timeout; client faults), a shutdown call at a seeded instant (Forced or Graceful 50 ms-60 s, optionally a second concurrent call and a task awaiting a cloned handle), connection attempts after the call has returned, per-thread scheduling weights (to starve a thread) and a preemption rate. The choice tape decides which simulated thread is polled at every step and how many other threads run at each hooked preemption point. Non-trivial: at least one connection existed when shutdown was called. Distinct: distinct hash of the sequence of (thread polled, preemption label) events.".into(),
+            rule: "Each run draws workers 1-4, listeners 1-2, 0-12 connections (full request at connect time, delayed request, half-sent headers, silent, keep-alive with a second request; handler durations 0, << timeout, ~timeout±3ms, >> timeout; client faults), a shutdown call at a seeded instant (Forced or Graceful 50 ms-60 s, optionally a second concurrent call and a task awaiting a cloned handle), connection attempts after the call has returned, per-thread scheduling weights (to starve a thread) and a preemption rate. Rare arms: overload, drain window, many live connections on one worker, queued burst, 2-3 workers blocked beyond the timeout (blocking request + 15 fillers per worker, since dispatch only moves on when an inbox is full), 70-130 requests sent to one blocked worker, and a caller that drops the shutdown future while a request is mid-handler (the task awaiting a clone of the handle is then judged against the drain). The choice tape decides which simulated thread is polled at every step and how many other threads run at each hooked preemption point. Non-trivial: at least one connection existed when shutdown was called. Distinct: distinct hash of the sequence of (thread polled, preemption label) events.".into(),
             real: vec!["pavex Server, ServerHandle, Acceptor, Worker (runtime/pavex/src/server/*)".into(), "hyper 1.x HTTP/1 connection state machine".into(), "hyper-util auto::Builder + GracefulShutdown".into(), "tokio mpsc/oneshot/watch channels, LocalSet, JoinSet, timers (paused clock)".into()],
             stub: vec!["OS threads → simulated threads (nested LocalSets polled by the seeded scheduler)".into(), "TCP listener and sockets → in-memory pipes (cfg(pavex_verif) seam)".into(), "clients → raw HTTP/1.1 simulator tasks".into(), "wall clock and OS entropy → libc-level seams".into()],
             assumptions: vec!["threads interleave at awaits and at the hooked synchronous preemption points, not between arbitrary instructions".into(), "class A ('received before the call') = dispatched to a worker and fully written before the call, and either never polled by the worker yet (queued) or its head already read; bytes that reach an already-served idle connection but are still unread when the worker processes the shutdown are hyper's documented idle-connection race and are only counted (probe_unread_bytes_on_served_connection_at_call)".into(), "HTTP/1.1 (hand-written client) and HTTP/2 with prior knowledge (hand-written client: preface, SETTINGS, HEADERS with END_STREAM, PING/SETTINGS acknowledgements; no flow-control pressure, no CONTINUATION, no request bodies)".into()],
